@@ -99,7 +99,7 @@ theorem parseV4_dotted (a b c d : Nat) (ha : a < 256) (hb : b < 256) (hc : c < 2
     parseOctet_render ⟨c, hc⟩, parseOctet_render ⟨d, hd⟩]
   simp
 
-private def ffff : Text := [0x66, 0x66, 0x66, 0x66]
+def ffff : Text := [0x66, 0x66, 0x66, 0x66]
 
 theorem v6Parts_mapped (a b c d : Nat) (ha : a < 256) (hb : b < 256) (hc : c < 256) (hd : d < 256) :
     v6Parts (mappedText a b c d) =
@@ -179,6 +179,141 @@ theorem parseIp_mapped (a b c d : Nat) (ha : a < 256) (hb : b < 256) (hc : c < 2
     rw [v6Parts_mapped a b c d ha hb hc hd]
     show assembleV6 _ = _
     rw [assembleV6_mapped, mapped_arith]
+  simp [parseIp, h4, parseV6, hslash, hpct, hint]
+
+/-! ### the hexadecimal IPv4-mapped form `::ffff:xxxx:yyyy` (what `str(IPv6Address)` prints) -/
+
+def hexDigitL (n : Nat) : UInt8 := if n < 10 then UInt8.ofNat (48 + n) else UInt8.ofNat (87 + n)
+
+/-- `'%x' % v` for a hextet -/
+def renderHextet (v : Nat) : Text :=
+  if v < 16 then [hexDigitL v]
+  else if v < 256 then [hexDigitL (v / 16), hexDigitL (v % 16)]
+  else if v < 4096 then [hexDigitL (v / 256), hexDigitL (v / 16 % 16), hexDigitL (v % 16)]
+  else [hexDigitL (v / 4096), hexDigitL (v / 256 % 16), hexDigitL (v / 16 % 16), hexDigitL (v % 16)]
+
+/-- `::ffff:xxxx:yyyy` -/
+def mappedHexText (x y : Nat) : Text :=
+  [0x3a, 0x3a, 0x66, 0x66, 0x66, 0x66, 0x3a] ++ (renderHextet x ++ 0x3a :: renderHextet y)
+
+theorem hexVal_digit : ∀ n : Fin 16, hexVal (hexDigitL n.val) = some n.val := by decide +kernel
+
+theorem hexDigit_not_sep : ∀ n : Fin 16,
+    hexDigitL n.val ≠ 0x3a ∧ hexDigitL n.val ≠ 0x2e ∧ hexDigitL n.val ≠ 0x2f ∧ hexDigitL n.val ≠ 0x25 := by
+  decide +kernel
+
+private theorem hv (n : Nat) (h : n < 16) : hexVal (hexDigitL n) = some n := hexVal_digit ⟨n, h⟩
+
+theorem parseHextet_render (v : Nat) (h : v < 65536) : parseHextet (renderHextet v) = some v := by
+  unfold renderHextet
+  split
+  · rename_i h1
+    simp [parseHextet, hv v h1]
+  · split
+    · have a := hv (v / 16) (by omega); have b := hv (v % 16) (by omega)
+      simp only [parseHextet, List.all_cons, List.all_nil, a, b, List.foldl_cons, List.foldl_nil]
+      simp; omega
+    · split
+      · have a := hv (v / 256) (by omega); have b := hv (v / 16 % 16) (by omega); have c := hv (v % 16) (by omega)
+        simp only [parseHextet, List.all_cons, List.all_nil, a, b, c, List.foldl_cons, List.foldl_nil]
+        simp; omega
+      · have a := hv (v / 4096) (by omega); have b := hv (v / 256 % 16) (by omega)
+        have c := hv (v / 16 % 16) (by omega); have d := hv (v % 16) (by omega)
+        simp only [parseHextet, List.all_cons, List.all_nil, a, b, c, d, List.foldl_cons, List.foldl_nil]
+        simp; omega
+
+theorem renderHextet_chars (v : Nat) (h : v < 65536) : ∀ c ∈ renderHextet v,
+    c ≠ 0x3a ∧ c ≠ 0x2e ∧ c ≠ 0x2f ∧ c ≠ 0x25 := by
+  intro c hc
+  unfold renderHextet at hc
+  split at hc
+  · simp only [List.mem_cons, List.not_mem_nil, or_false] at hc; subst hc
+    exact hexDigit_not_sep ⟨v, by omega⟩
+  · split at hc
+    · simp only [List.mem_cons, List.not_mem_nil, or_false] at hc
+      rcases hc with rfl | rfl
+      · exact hexDigit_not_sep ⟨v / 16, by omega⟩
+      · exact hexDigit_not_sep ⟨v % 16, by omega⟩
+    · split at hc
+      · simp only [List.mem_cons, List.not_mem_nil, or_false] at hc
+        rcases hc with rfl | rfl | rfl
+        · exact hexDigit_not_sep ⟨v / 256, by omega⟩
+        · exact hexDigit_not_sep ⟨v / 16 % 16, by omega⟩
+        · exact hexDigit_not_sep ⟨v % 16, by omega⟩
+      · simp only [List.mem_cons, List.not_mem_nil, or_false] at hc
+        rcases hc with rfl | rfl | rfl | rfl
+        · exact hexDigit_not_sep ⟨v / 4096, by omega⟩
+        · exact hexDigit_not_sep ⟨v / 256 % 16, by omega⟩
+        · exact hexDigit_not_sep ⟨v / 16 % 16, by omega⟩
+        · exact hexDigit_not_sep ⟨v % 16, by omega⟩
+
+theorem renderHextet_ne_nil (v : Nat) : renderHextet v ≠ [] := by
+  unfold renderHextet; split <;> (try split) <;> (try split) <;> simp
+
+theorem assembleV6_mappedHex (hx hy : Text) (x y : Nat) (h1 : parseHextet hx = some x) (h2 : parseHextet hy = some y)
+    (n1 : hx ≠ []) (n2 : hy ≠ []) :
+    assembleV6 [Part.txt [], Part.txt [], Part.txt ffff, Part.txt hx, Part.txt hy] =
+      some ((65535 * 65536 + x) * 65536 + y) := by
+  have e1 : hx.isEmpty = false := by cases hx <;> simp_all
+  have e2 : hy.isEmpty = false := by cases hy <;> simp_all
+  have hf : parseHextet ffff = some 65535 := by decide
+  have ef : ffff.isEmpty = false := rfl
+  simp [assembleV6, interiorEmpty, List.range, List.range.loop, Part.isEmpty, assembleSkip, foldParts, Part.val,
+    h1, h2, e1, e2, hf, ef]
+
+private theorem mappedHex_arith (x y : Nat) :
+    (65535 * 65536 + x) * 65536 + y = 0xFFFF * 4294967296 + (x * 65536 + y) := by omega
+
+/-- **hex IPv4-mapped read-back**: `::ffff:xxxx:yyyy` is read back as the IPv4-mapped address of
+    `x * 65536 + y` -/
+theorem parseIp_mappedHex (x y : Nat) (hx : x < 65536) (hy : y < 65536) :
+    parseIp (mappedHexText x y) = some (Addr.v6 (0xFFFF * 4294967296 + (x * 65536 + y)) none) := by
+  have cx := renderHextet_chars x hx
+  have cy := renderHextet_chars y hy
+  have nocolon_x : (0x3a : UInt8) ∉ renderHextet x := fun hm => (cx _ hm).1 rfl
+  have nocolon_y : (0x3a : UInt8) ∉ renderHextet y := fun hm => (cy _ hm).1 rfl
+  have hno : ∀ sep : UInt8, sep = 0x2e ∨ sep = 0x2f ∨ sep = 0x25 → sep ∉ mappedHexText x y := by
+    intro sep hs hm
+    simp only [mappedHexText, List.mem_append, List.mem_cons] at hm
+    rcases hm with hm | hm | hm | hm
+    · rcases hs with rfl | rfl | rfl <;> revert hm <;> decide
+    · have := cx _ hm; rcases hs with rfl | rfl | rfl <;> simp_all
+    · rcases hs with rfl | rfl | rfl <;> revert hm <;> decide
+    · have := cy _ hm; rcases hs with rfl | rfl | rfl <;> simp_all
+  -- not an IPv4 text: no '.', so `split('.')` gives one part
+  have h4 : parseV4 (mappedHexText x y) = none := by
+    unfold parseV4
+    split; · rfl
+    split; · rfl
+    rw [splitOn_nosep _ _ (hno 0x2e (Or.inl rfl))]
+  have hsplit : splitOn 0x3a (mappedHexText x y) = [[], [], ffff, renderHextet x, renderHextet y] := by
+    have e : mappedHexText x y = [] ++ 0x3a :: ([] ++ 0x3a :: (ffff ++ 0x3a :: (renderHextet x ++ 0x3a :: renderHextet y))) := rfl
+    rw [e, splitOn_append _ _ _ (by simp), splitOn_append _ _ _ (by simp),
+        splitOn_append _ _ _ (by decide), splitOn_append _ _ _ nocolon_x, splitOn_nosep _ _ nocolon_y]
+  have hnodot : (0x2e : UInt8) ∉ renderHextet y := fun hm => (cy _ hm).2.1 rfl
+  have hparts : v6Parts (mappedHexText x y) =
+      some [Part.txt [], Part.txt [], Part.txt ffff, Part.txt (renderHextet x), Part.txt (renderHextet y)] := by
+    have hne : (mappedHexText x y).isEmpty = false := rfl
+    simp only [v6Parts, hne, hsplit, List.length_cons, List.length_nil]
+    simp [hnodot]
+  have hpct : partitionPct (mappedHexText x y) = none := by
+    have gen : ∀ t : Text, (0x25 : UInt8) ∉ t → partitionPct t = none := by
+      intro t
+      induction t with
+      | nil => intro _; rfl
+      | cons c cs ih =>
+        intro h
+        simp only [List.mem_cons, not_or] at h
+        have hc : c ≠ 0x25 := fun e => h.1 e.symm
+        simp [partitionPct, hc, ih h.2]
+    exact gen _ (hno 0x25 (Or.inr (Or.inr rfl)))
+  have hint : parseV6Int (mappedHexText x y) = some (0xFFFF * 4294967296 + (x * 65536 + y)) := by
+    unfold parseV6Int
+    rw [hparts]
+    show assembleV6 _ = _
+    rw [assembleV6_mappedHex _ _ x y (parseHextet_render x hx) (parseHextet_render y hy)
+      (renderHextet_ne_nil x) (renderHextet_ne_nil y), mappedHex_arith]
+  have hslash := hno 0x2f (Or.inr (Or.inl rfl))
   simp [parseIp, h4, parseV6, hslash, hpct, hint]
 
 end MitmVerif.Lemmas.C22
